@@ -13,7 +13,7 @@ open Proto
 def step (line : String) : String :=
   let fields := line.splitOn "\t"
   match Ops.stepStr fields <|> Ops.stepIgnore fields <|> Ops.stepGlob fields <|> Ops.stepDep5 fields
-    <|> Ops.stepReport fields with
+    <|> Ops.stepReport fields <|> Ops.stepLint fields with
   | some out => out
   | none => "bad-op"
 
